@@ -149,3 +149,9 @@ Definition sdict := list (string * string).
 Fixpoint py_sget (d : sdict) (k : string) : option string :=
   match d with [] => None | (k', v) :: d' => if String.eqb k' k then Some v else py_sget d' k end.
 Definition py_sin (d : sdict) (k : string) : bool := match py_sget d k with Some _ => true | None => false end.
+
+(* ---------------------------------------------------------------------------------------------- ranges, printing of list[int] *)
+(* list(range(a, b)) / list(np.arange(a, b)) for ints *)
+Definition py_range (a b : Z) : list Z := map (fun k => (a + Z.of_nat k)%Z) (seq 0 (Z.to_nat (b - a))).
+(* str([1, 2, 3]) = "[1, 2, 3]" *)
+Definition py_str_list_Z (l : list Z) : string := ("[" ++ py_join ", " (map py_str_Z l) ++ "]")%string.
